@@ -228,6 +228,9 @@ impl Sched {
     }
 
     fn record(st: &mut State, tid: usize, kind: Kind, key: u64) {
+        if std::env::var("VERIF_TRACE").is_ok() {
+            eprintln!("  step {:3} T{} {:?} {}", st.stats.steps, tid, kind, key);
+        }
         st.stats.steps += 1;
         st.trace.u64(((tid as u64) << 56) ^ ((kind as u64) << 48) ^ key);
         st.last_progress = Instant::now();
